@@ -437,6 +437,22 @@ func c18(c *Ctx) {
 				good, _ = cfgx.OnlyHeaderExits(loop)
 			}
 			c.R.Check(good, load.FuncName(vp)+": checks every request", c.pos(ac[0].Pos()), "the loop over the expanded requests has no early exit", "the validation loop can exit before all expanded requests are checked")
+			// the tree consulted is built in this call from the ClusterRole read in this call
+			{
+				fresh := true
+				recv := cfgx.Receiver(ac[0])
+				if recv == nil {
+					recv = ac[0].Common().Args[0]
+				}
+				for _, leaf := range leaves(recv) {
+					ci, ok := leaf.(*ssa.Call)
+					if !ok || !strings.HasSuffix(cfgx.CalleeName(ci), pkg+".newNode") {
+						fresh = false
+					}
+				}
+				gets := calls(vp, clientGet)
+				c.R.Check(fresh && len(gets) > 0 && cfgx.MustPass(gets[0].Block(), ac[0].Block()), site(ac[0])+" on a fresh tree", c.pos(ac[0].Pos()), "the allow tree is a newNode() of this call, filled after the ClusterRole was read", "the allow tree consulted can be one remembered from an earlier call: a permission removed from the allow-list since then is still granted")
+			}
 			// the checked rules are Expand(requests...), the tree is built from Expand(cr.Rules...)
 			c.R.Check(flow.Default.Any(cfgx.CallArgs(ac[0])[0], func(v ssa.Value) bool { return v == ssa.Value(vp.Params[2]) }), site(ac[0])+" of-requests", c.pos(ac[0].Pos()), "the paths checked derive from the requests parameter", "the paths checked do not derive from the requests")
 		}
